@@ -4,11 +4,107 @@
 // This file contains no code; it is compiled only under the build tag "verif".
 package types
 
-//@ pred wfPartSet(ps *PartSet) = ps != nil && ps.total >= 0 && len(ps.parts) == ps.total && ps.partsBitArray != nil && 0 <= ps.count && ps.count <= ps.total
+// ---------------------------------------------------------------------------------------------
+// shared vocabulary
+
+//@ define psHeaderEq(a PartSetHeader, b PartSetHeader) Bool = a.Total == b.Total && bytesEq(a.Hash, b.Hash)
+//@ define blockIDEq(a BlockID, b BlockID) Bool = bytesEq(a.Hash, b.Hash) && psHeaderEq(a.PartsHeader, b.PartsHeader)
+//@ define keyOf(b BlockID) String = string(b.Hash) + string(wireBytes(box(b.PartsHeader)))
+//@ define quorum(T Int) Int = T*2/3 + 1
+
+//@ spec sbVote(chainID String, height Int, round Int, typ Int, id BlockID) Bytes
+//@ define voteSB(chainID String, v *Vote) Bytes = sbVote(chainID, v.Height, v.Round, v.Type, v.BlockID)
+
+//@ extern func gemmill/types.SignBytes
+//@   pure
+//@   ensures typeIs(o, *Vote) ==> result == voteSB(chainID, unbox(o, *Vote))
+
+// ---------------------------------------------------------------------------------------------
+// BlockID / PartSetHeader
+
+//@ func (PartSetHeader).IsZero
+//@   props C15 C02
+//@   pure
+//@   ensures result == (psh.Total == 0)
+
+//@ func (PartSetHeader).Equals
+//@   props C15 C02
+//@   pure
+//@   ensures result == psHeaderEq(psh, other)
+
+//@ func (BlockID).IsZero
+//@   props C15 C02
+//@   pure
+//@   ensures result == (len(blockID.Hash) == 0 && blockID.PartsHeader.Total == 0)
+
+//@ func (BlockID).Equals
+//@   props C15 C02
+//@   pure
+//@   ensures result == blockIDEq(blockID, other)
+
+//@ func (BlockID).Key
+//@   props C15
+//@   pure
+//@   ensures result == keyOf(blockID)
+
+// ---------------------------------------------------------------------------------------------
+// part set (C17, C08)
+
+//@ pred wfPartSet(ps *PartSet) = ps != nil && ps.total >= 0 && len(ps.parts) == ps.total && 0 <= ps.count \
+//@      && (ps.total == 0 ==> ps.partsBitArray == nil) && (ps.total > 0 ==> wfBA(ps.partsBitArray) && ps.partsBitArray.Bits == ps.total)
+
+//@ func (*Part).Hash
+//@   props C17
+//@   requires part != nil
+//@   assigns  part.hash
+//@   ensures  result != nil
+//@   ensures  old(part.hash) != nil ==> result == old(part.hash)
+//@   ensures  old(part.hash) == nil ==> result == hashOf(part.Bytes)
+//@   ensures  part.hash == result
+
+//@ func (*PartSet).Hash
+//@   props C17
+//@   pure
+//@   ensures result == ite(ps == nil, nil, ps.hash)
+
+//@ func (*PartSet).Header
+//@   props C17 C04
+//@   pure
+//@   ensures ps == nil ==> result.Total == 0 && result.Hash == nil
+//@   ensures ps != nil ==> result.Total == ps.total && result.Hash == ps.hash
+
+//@ func (*PartSet).HasHeader
+//@   props C17 C04
+//@   pure
+//@   ensures ps == nil ==> !result
+//@   ensures ps != nil ==> result == (ps.total == header.Total && bytesEq(ps.hash, header.Hash))
+
+//@ func (*PartSet).IsComplete
+//@   props C17
+//@   requires ps != nil
+//@   pure
+//@   ensures result == (ps.count == ps.total)
 
 //@ func (*PartSet).AddPart
 //@   props C17 C08
 //@   requires wfPartSet(ps) && part != nil
+//@   assigns  ps.parts[*], ps.partsBitArray.Elems[*], ps.partsBitArray.mtx.*, ps.count, ps.mtx.*, part.hash
 //@   ensures  result0 ==> 0 <= part.Index && part.Index < ps.total && old(ps.parts[part.Index]) == nil && ps.parts[part.Index] == part && ps.count == old(ps.count) + 1
+//@   ensures  result0 && verify ==> proofOK(part.Proof.Aunts, elems(part.Proof.Aunts), part.Index, ps.total, part.hash, ps.hash)
+//@   ensures  forall(j, 0, ps.total, j != part.Index || !result0 ==> ps.parts[j] == old(ps.parts[j]))
 //@   ensures  !result0 ==> ps.count == old(ps.count)
 //@   ensures  result1 != nil ==> !result0
+//@   ensures  wfPartSet(ps)
+
+//@ func NewPartSetFromHeader
+//@   props C17 C08
+//@   requires header.Total >= 0
+//@   assigns  nothing
+//@   ensures  wfPartSet(result) && fresh(result) && result.total == header.Total && result.hash == header.Hash && result.count == 0
+//@   ensures  forall(j, 0, result.total, result.parts[j] == nil)
+
+//@ func (*PartSet).GetPart
+//@   props C17 C08
+//@   requires wfPartSet(ps) && 0 <= index && index < ps.total
+//@   assigns  ps.mtx.*
+//@   ensures  result == ps.parts[index]
